@@ -118,3 +118,33 @@ Example slip_gt_refuted : run_arm (sample_arm [SCount CGt; SAssign; SValue]) 1 0
 Proof. cbn. discriminate. Qed.
 Example slip_assign_before_count_refuted : run_arm (sample_arm [SAssign; SCount CGe; SValue]) 0 0 [true] <> ref_call true true true true 0 0 [true].
 Proof. cbn. discriminate. Qed.
+
+(* ---- item names declared by the arms (macro_rules hygiene does not cover items: inside the expansion's block they shadow the
+   caller's own items of the same name in the when / assign / returns fragments).  Arms that take the same options must declare
+   the same names: then a caller item means the same thing in all of them. ---- *)
+Definition optkey := (bool * bool * bool * bool)%type.
+Definition optkey_eqb (a b:optkey) : bool :=
+  match a, b with (a1,a2,a3,a4), (b1,b2,b3,b4) => Bool.eqb a1 b1 && Bool.eqb a2 b2 && Bool.eqb a3 b3 && Bool.eqb a4 b4 end.
+Fixpoint strs_eqb (x y:list string) : bool :=
+  match x, y with
+  | [], [] => true
+  | a :: x', b :: y' => String.eqb a b && strs_eqb x' y'
+  | _, _ => false
+  end.
+Definition items_uniform (l:list (optkey * list string)) : bool :=
+  forallb (fun x => forallb (fun y => if optkey_eqb (fst x) (fst y) then strs_eqb (snd x) (snd y) else true) l) l.
+
+Lemma optkey_eqb_refl k : optkey_eqb k k = true.
+Proof. destruct k as [[[a b] c] d]; simpl; rewrite !Bool.eqb_reflx; reflexivity. Qed.
+Lemma strs_eqb_eq x : forall y, strs_eqb x y = true -> x = y.
+Proof.
+  induction x as [|a x IH]; intros [|b y] H; simpl in H; try discriminate; [reflexivity|].
+  apply andb_prop in H; destruct H as [Hab Hxy]. apply String.eqb_eq in Hab. subst b. f_equal. apply IH; exact Hxy.
+Qed.
+Lemma items_uniform_spec l : items_uniform l = true ->
+  forall x y, In x l -> In y l -> fst x = fst y -> snd x = snd y.
+Proof.
+  unfold items_uniform; intros H x y Hx Hy Hk.
+  rewrite forallb_forall in H. specialize (H x Hx). rewrite forallb_forall in H. specialize (H y Hy).
+  rewrite Hk, optkey_eqb_refl in H. apply strs_eqb_eq; exact H.
+Qed.
